@@ -445,6 +445,16 @@ class Session:
         raise Bad(op)
 
 
+_ADAPTERS = {}
+
+
+def _type_adapter(cls):
+    if cls not in _ADAPTERS:
+        from pydantic import TypeAdapter
+        _ADAPTERS[cls] = TypeAdapter(cls)
+    return _ADAPTERS[cls]
+
+
 def roundtrip(how, obj):
     """The real serialisers: pickle (all protocols via `how`), copy, deepcopy, the library's JSON
     codec, the pydantic validator on the JSON form, and the SQL composite form."""
@@ -462,7 +472,13 @@ def roundtrip(how, obj):
         with codecs_installed():
             return json.loads(json.dumps(obj))
     if how == "pydantic":
-        return type(obj)._pydantic_validate(json.loads(json.dumps(obj, cls=MeasuredJSONEncoder)))
+        # what a pydantic model with a field of this type does: model_dump_json / model_validate_json
+        ta = _type_adapter(type(obj))
+        return ta.validate_json(ta.dump_json(obj))
+    if how == "pydanticname":
+        # the other two inputs the validators accept: a registered name, or the object itself
+        name = getattr(obj, "name", None)
+        return type(obj)._pydantic_validate(name if isinstance(name, str) and name else obj)
     if how == "composite":
         return Quantity(*obj.__composite_values__())
     raise Bad(how)
